@@ -26,23 +26,35 @@ def split_data(data: ListOf(Arr2), ratios: ListOf(Real)) -> ListOf(ListOf(Arr2))
     raises(ValueError, must=abs(exact_sum(ratios) - 1) > 0.000001, may=exact_sum(ratios) != 1)
     ensures(len(result) == len(ratios), all(len(result[i]) == len(data) for i in range(len(ratios))))
     ensures(all(same_array(result[i][e], fold_spec(data, ratios, e, i)) for i in range(len(ratios)) for e in range(len(data))))
+    # which shuffles: one private generator seeded with exactly random_state (0 included), advanced only by the shuffles themselves,
+    # one per environment in order - so the assignment is a function of random_state alone and of nothing else
+    ensures(implies(len(data) >= 1, same_state(shuffle_state(0), rng_state(random_state))),
+            all(same_state(shuffle_state(e + 1), adv_shuffle(shuffle_state(e), len(data[e]))) for e in range(len(data) - 1)))
+    reproducible(private=True, nondegenerate=False)
     fresh(result)
 
 
 @invariant("sempler.utils.split_data", loop=1)
-def _split_outer(folds, data, ratios, n_folds):
+def _split_outer(folds, data, ratios, n_folds, rng, random_state):
     declare(folds=DictOf(Int, ListOf(Arr2)))
     holds(n_folds == len(ratios),
           all(len(folds[i]) == _k1 for i in range(len(ratios))),
-          all(same_array(folds[i][e], fold_spec(data, ratios, e, i)) for i in range(len(ratios)) for e in range(_k1)))
+          all(same_array(folds[i][e], fold_spec(data, ratios, e, i)) for i in range(len(ratios)) for e in range(_k1)),
+          implies(_k1 == 0, same_state(gen_state(rng), rng_state(random_state))),
+          implies(_k1 >= 1, same_state(gen_state(rng), adv_shuffle(shuffle_state(_k1 - 1), len(data[_k1 - 1])))),
+          implies(_k1 >= 1, same_state(shuffle_state(0), rng_state(random_state))),
+          all(same_state(shuffle_state(e + 1), adv_shuffle(shuffle_state(e), len(data[e]))) for e in range(_k1 - 1)))
 
 
 @invariant("sempler.utils.split_data", loop=2)
-def _split_inner(folds, data, ratios, n_folds, sample, start, n):
+def _split_inner(folds, data, ratios, n_folds, sample, start, n, rng, random_state):
     declare(folds=DictOf(Int, ListOf(Arr2)))
     holds(n_folds == len(ratios), n == len(data[_k1]), implies(_k2 < len(ratios), start == prefix_round(n, ratios, _k2)), start >= 0,
           all(len(folds[i]) == (_k1 + 1 if i < _k2 else _k1) for i in range(len(ratios))),
           all(same_array(folds[i][e], fold_spec(data, ratios, e, i)) for i in range(len(ratios)) for e in range(_k1)),
           all(same_array(folds[i][_k1], fold_spec(data, ratios, _k1, i)) for i in range(_k2)),
           sample.shape[0] == n and sample.shape[1] == data[_k1].shape[1],
-          all(sample[r, c] == data[_k1][shuffle_perm(_k1, r), c] for r in range(n) for c in range(sample.shape[1])))
+          all(sample[r, c] == data[_k1][shuffle_perm(_k1, r), c] for r in range(n) for c in range(sample.shape[1])),
+          same_state(gen_state(rng), adv_shuffle(shuffle_state(_k1), n)),
+          same_state(shuffle_state(0), rng_state(random_state)),
+          all(same_state(shuffle_state(e + 1), adv_shuffle(shuffle_state(e), len(data[e]))) for e in range(_k1)))
